@@ -74,7 +74,13 @@ impl Effect for Distortion {
 					output.right / (1.0 + output.right.abs()),
 				),
 			};
-			output /= drive;
+			// at -60 dB and below the drive amplitude is exactly 0: nothing was clipped,
+			// and dividing by it would turn the whole signal into NaN
+			if drive != 0.0 {
+				output /= drive;
+			} else {
+				output = *frame;
+			}
 
 			*frame = output * mix.sqrt() + *frame * (1.0 - mix).sqrt()
 		}
